@@ -372,6 +372,383 @@ theorem rate_zero_of_dG_nonpos (gbn : Bool) (f γ a b c e Rmin dG kB Z β T τ t
   rw [barrier_nonpos gbn f γ a b c e Rmin dG h]
   exact rate_zero_of_G_zero kB Z β T τ t
 
+
+/-! ### nucleation sites -/
+
+theorem knpow_eq_pow (x : α) : ∀ k : Nat, npow x k = x ^ k
+  | 0 => by simp [npow]
+  | 1 => by simp [npow]
+  | k + 2 => by
+    have e : npow x (k + 2) = npow x (k + 1) * x := rfl
+    rw [e, knpow_eq_pow x (k + 1), pow_succ x (k + 1)]
+
+theorem sitesFrom_nonneg (parent n0 occ scale : α) : 0 ≤ sitesFrom parent n0 occ scale :=
+  maxS_ge_right _ _
+
+/-- the number of available sites is never negative -/
+theorem calcSites_nonneg (cfg : SiteCfg α) (phases : List (PhasePop α)) (parents : List Nat) (s : Site) :
+    0 ≤ calcSites cfg phases parents s := by
+  unfold calcSites
+  split_ifs <;> exact sitesFrom_nonneg _ _ _ _
+
+theorem sitesFrom_antitone (parent n0 occ occ' scale : α) (h : occ ≤ occ') (hs : 0 ≤ scale) :
+    sitesFrom parent n0 occ' scale ≤ sitesFrom parent n0 occ scale := by
+  simp only [sitesFrom, maxS_eq_max]
+  apply max_le_max _ (le_refl _)
+  have := mul_le_mul_of_nonneg_right h hs
+  linarith
+
+/-- same size classes (radii), at least as many particles in each -/
+def BinsLE (b b' : List (α × α)) : Prop := List.Forall₂ (fun x y => x.2 = y.2 ∧ 0 ≤ x.2 ∧ x.1 ≤ y.1) b b'
+
+/-- same phase description, populations dominated class by class -/
+def PhaseLE (p p' : PhasePop α) : Prop :=
+  p.site = p'.site ∧ p.gbRemoval = p'.gbRemoval ∧ p.gbk = p'.gbk ∧ p.vmBeta = p'.vmBeta ∧ BinsLE p.bins p'.bins
+
+theorem moment_mono (j : Nat) (b b' : List (α × α)) (h : BinsLE b b') : moment j b ≤ moment j b' := by
+  unfold moment
+  induction h with
+  | nil => exact le_refl _
+  | @cons x y xs ys hxy _ ih =>
+    obtain ⟨h2, h0, h1⟩ := hxy
+    simp only [List.map_cons, sumL]
+    rw [h2] at h0 ⊢
+    have : 0 ≤ npow y.2 j := by rw [knpow_eq_pow]; exact pow_nonneg h0 j
+    exact add_le_add (mul_le_mul_of_nonneg_right h1 this) ih
+
+theorem occupied_mono (pred : Site → Bool) (w : PhasePop α → α) (phases phases' : List (PhasePop α))
+    (h : List.Forall₂ PhaseLE phases phases') (hw : ∀ p p', PhaseLE p p' → w p ≤ w p') :
+    occupied pred w phases ≤ occupied pred w phases' := by
+  unfold occupied
+  induction h with
+  | nil => exact le_refl _
+  | @cons x y xs ys hxy _ ih =>
+    have hs : x.site = y.site := hxy.1
+    simp only [List.filter_cons, hs]
+    split
+    · simp only [List.map_cons, sumL]; exact add_le_add (hw _ _ hxy) ih
+    · exact ih
+
+/-- **occupied sites are lost**: without parent phases, larger populations of the phases of the same
+site kind leave at most as many available sites.  (Weights: grain-boundary removal factor ≥ 0 for the
+boundary phases; `√`, and the `(N_A/Vm)^(1/3)`, `^(2/3)` factors non-negative.) -/
+theorem calcSites_antitone (cfg : SiteCfg α) (phases phases' : List (PhasePop α)) (s : Site)
+    (h : List.Forall₂ PhaseLE phases phases')
+    (hgb : ∀ p ∈ phases, 0 ≤ p.gbRemoval) (hsqrt : ∀ x : α, 0 ≤ Trans.sqrt x)
+    (h13 : 0 ≤ Trans.pow (cfg.NA / cfg.vmAlpha) ((1 : α) / 3)) (h23 : 0 ≤ Trans.pow (cfg.NA / cfg.vmAlpha) ((2 : α) / 3)) :
+    calcSites cfg phases' [] s ≤ calcSites cfg phases [] s := by
+  have hgb' : ∀ p p', PhaseLE p p' → p ∈ phases → 0 ≤ p.gbRemoval := fun p _ _ hp => hgb p hp
+  unfold calcSites
+  have hpar : parentSites cfg.NA phases' [] = parentSites cfg.NA phases [] := by simp [parentSites]
+  rw [hpar]
+  split_ifs
+  · exact sitesFrom_antitone _ _ _ _ _
+      (occupied_mono _ _ _ _ h fun p p' hp => moment_mono 0 _ _ hp.2.2.2.2) zero_le_one
+  · exact sitesFrom_antitone _ _ _ _ _
+      (occupied_mono _ _ _ _ h fun p p' hp => moment_mono 1 _ _ hp.2.2.2.2) h13
+  · refine sitesFrom_antitone _ _ _ _ _ ?_ h23
+    -- weights: need 0 ≤ gbRemoval for the phases in the list; carry membership through the induction
+    unfold occupied
+    clear hpar
+    induction h with
+    | nil => exact le_refl _
+    | @cons x y xs ys hxy _ ih =>
+      have hs : x.site = y.site := hxy.1
+      have ihh := ih (fun p hp => hgb p (List.mem_cons_of_mem _ hp)) (fun p p' hpp hp => hgb p (List.mem_cons_of_mem _ hp))
+      simp only [List.filter_cons, hs]
+      split
+      · simp only [List.map_cons, sumL]
+        refine add_le_add ?_ ihh
+        rw [← hxy.2.1]
+        exact mul_le_mul_of_nonneg_left (moment_mono 2 _ _ hxy.2.2.2.2) (hgb x (List.mem_cons_self ..))
+      · exact ihh
+  · refine sitesFrom_antitone _ _ _ _ _ ?_ h13
+    exact occupied_mono _ _ _ _ h fun p p' hp => by
+      rw [← hp.2.2.1]
+      exact mul_le_mul_of_nonneg_left (moment_mono 1 _ _ hp.2.2.2.2) (hsqrt _)
+  · exact sitesFrom_antitone _ _ _ _ _
+      (occupied_mono _ _ _ _ h fun p p' hp => moment_mono 0 _ _ hp.2.2.2.2) zero_le_one
+
+/-- observation (not part of the statement): dislocation sites take the `BulkDescription` branch, because
+`DislocationDescription` subclasses `BulkDescription` and that test comes first; the dislocation density never
+enters the number of available sites -/
+theorem calcSites_dislocation_uses_bulk_branch (cfg : SiteCfg α) (phases : List (PhasePop α)) (parents : List Nat) :
+    calcSites cfg phases parents .disl = calcSites cfg phases parents .bulk := by
+  simp [calcSites, Site.isBulkInst]
+
+
+/-! ### cached factors follow every assignment -/
+
+/-- which assignment MUST clear which cache slot: all of them, except that the energy ratio `GBk` does not
+depend on the description -/
+def needs : Setter → Cache → Bool
+  | .description, .gbk => false
+  | _, _ => true
+
+/-- the invalidation table probed on the real class (regenerated on every run) clears everything it must -/
+theorem table_complete : ∀ s c, needs s c = true → clears s c = true := by
+  intro s c; cases s <;> cases c <;> simp [needs, clears]
+
+/-- the fresh value of a slot: what the getter computes on the same parameters with empty caches -/
+def fresh (p : NBP α) (c : Cache) : Except Err α := (p.clearAll.get c).1
+
+/-- every cached value is the fresh one -/
+def CacheOK (p : NBP α) : Prop := ∀ c v, p.cache c = some v → fresh p c = .ok v
+
+/-- validation + description call, given the ratio -/
+def factorFrom (s : Site) (c : Cache) (k : α) : Except Err α :=
+  if tooLarge s k then .error .ratio
+  else .ok (descValue s c k)
+
+/-- after the repair of the `k == maxRatio` case the validation and the mask of the description are
+complementary: a factor getter that does not raise returns the FORMULA, never the −1 sentinel -/
+theorem factorFrom_ok (s : Site) (c : Cache) (k v : α) (h : factorFrom s c k = .ok v) : v = formula s c k := by
+  unfold factorFrom at h
+  cases ht : tooLarge s k
+  · simp only [ht, Bool.false_eq_true, if_false, Except.ok.injEq] at h
+    have hb : belowMax s k = true := by
+      unfold tooLarge at ht; unfold belowMax
+      cases hm : maxRatio (α := α) s with
+      | none => rfl
+      | some m => simp only [hm, decide_eq_false_iff_not, not_not] at ht; simp [ht]
+    simp only [descValue, hb, if_true] at h
+    exact h.symm
+  · simp [ht] at h
+
+theorem fresh_gbk (p : NBP α) : fresh p .gbk = p.computeGBk := by
+  have e : p.clearAll.computeGBk = p.computeGBk := rfl
+  simp only [fresh, NBP.get, NBP.getGBk, NBP.clearAll]
+  show (match p.clearAll.computeGBk with
+    | .ok v => ((Except.ok v : Except Err α), p.clearAll.store .gbk v)
+    | .error e => (.error e, p.clearAll)).1 = _
+  rw [e]
+  cases p.computeGBk <;> rfl
+
+theorem getGBk_fst (p : NBP α) (h : CacheOK p) : p.getGBk.1 = p.computeGBk := by
+  unfold NBP.getGBk
+  cases hc : p.cache .gbk with
+  | some v => simp only; rw [← fresh_gbk]; exact (h _ _ hc).symm
+  | none => simp only; cases p.computeGBk <;> rfl
+
+theorem store_clearAll (p : NBP α) (c : Cache) (v : α) : (p.store c v).clearAll = p.clearAll := rfl
+
+theorem fresh_store (p : NBP α) (c c' : Cache) (v : α) : fresh (p.store c v) c' = fresh p c' := rfl
+
+theorem inv_store (p : NBP α) (c : Cache) (v : α) (h : CacheOK p) (hv : fresh p c = .ok v) : CacheOK (p.store c v) := by
+  intro c' v' hc
+  rw [fresh_store]
+  simp only [NBP.store] at hc
+  split at hc
+  · next heq => cases hc; rw [heq]; exact hv
+  · exact h _ _ hc
+
+theorem getGBk_inv (p : NBP α) (h : CacheOK p) : CacheOK p.getGBk.2 := by
+  unfold NBP.getGBk
+  cases hc : p.cache .gbk with
+  | some v => exact h
+  | none =>
+    simp only
+    cases hk : p.computeGBk with
+    | ok v => exact inv_store p .gbk v h (by rw [fresh_gbk]; exact hk)
+    | error e => exact h
+
+theorem getGBk_params (p : NBP α) : p.getGBk.2.site = p.site ∧ p.getGBk.2.gamma = p.gamma ∧ p.getGBk.2.gbE = p.gbE := by
+  unfold NBP.getGBk
+  cases p.cache .gbk with
+  | some v => exact ⟨rfl, rfl, rfl⟩
+  | none => simp only; cases p.computeGBk <;> exact ⟨rfl, rfl, rfl⟩
+
+/-- what a factor getter computes when its slot is empty -/
+theorem get_uncached (p : NBP α) (c : Cache) (hc : c ≠ .gbk) (hn : p.cache c = none) :
+    p.get c = (match p.getGBk with
+      | (.error e, p1) => (.error e, p1)
+      | (.ok k, p1) =>
+        if tooLarge p.site k then (.error .ratio, p1)
+        else (.ok (descValue p.site c k), p1.store c (descValue p.site c k))) := by
+  cases c <;> first | exact absurd rfl hc | (simp only [NBP.get, hn]; done) | (simp only [NBP.get, hn]; rfl)
+
+theorem fresh_factor (p : NBP α) (c : Cache) (hc : c ≠ .gbk) :
+    fresh p c = p.computeGBk.bind (factorFrom p.site c) := by
+  unfold fresh
+  rw [get_uncached p.clearAll c hc rfl]
+  have hg : p.clearAll.getGBk = (match p.computeGBk with
+      | .ok v => ((Except.ok v : Except Err α), p.clearAll.store .gbk v)
+      | .error e => (.error e, p.clearAll)) := rfl
+  rw [hg]
+  cases p.computeGBk with
+  | error e => rfl
+  | ok k =>
+    simp only [Except.bind, factorFrom, show p.clearAll.site = p.site from rfl]
+    cases tooLarge p.site k <;> rfl
+
+/-- **a getter returns the fresh value**, whatever is cached, as long as the invariant holds -/
+theorem get_fst (p : NBP α) (c : Cache) (h : CacheOK p) : (p.get c).1 = fresh p c := by
+  by_cases hc : c = .gbk
+  · subst hc
+    show p.getGBk.1 = _
+    rw [getGBk_fst p h, fresh_gbk]
+  · cases hcache : p.cache c with
+    | some v =>
+      have : p.get c = (.ok v, p) := by
+        cases c <;> first | exact absurd rfl hc | simp only [NBP.get, hcache]
+      rw [this]; exact (h _ _ hcache).symm
+    | none =>
+      rw [get_uncached p c hc hcache, fresh_factor p c hc]
+      have h1 := getGBk_fst p h
+      revert h1
+      generalize p.getGBk = r
+      obtain ⟨r1, p1⟩ := r
+      intro h1
+      simp only at h1
+      subst h1
+      cases p.computeGBk with
+      | error e => rfl
+      | ok k =>
+        simp only [Except.bind, factorFrom]
+        cases tooLarge p.site k <;> rfl
+
+theorem get_inv (p : NBP α) (c : Cache) (h : CacheOK p) : CacheOK (p.get c).2 := by
+  by_cases hc : c = .gbk
+  · subst hc; exact getGBk_inv p h
+  · cases hcache : p.cache c with
+    | some v =>
+      have : p.get c = (.ok v, p) := by
+        cases c <;> first | exact absurd rfl hc | simp only [NBP.get, hcache]
+      rw [this]; exact h
+    | none =>
+      have hfst := get_fst p c h
+      rw [get_uncached p c hc hcache] at hfst ⊢
+      have hi := getGBk_inv p h
+      have hp := getGBk_params p
+      revert hfst hi hp
+      generalize p.getGBk = r
+      obtain ⟨r1, p1⟩ := r
+      intro hfst hi hp
+      cases r1 with
+      | error e => exact hi
+      | ok k =>
+        simp only at hfst ⊢
+        cases hsm : tooLarge p.site k
+        · simp only [hsm, Bool.false_eq_true, if_false] at hfst ⊢
+          apply inv_store _ _ _ hi
+          have : fresh p1 c = fresh p c := by
+            unfold fresh NBP.clearAll
+            obtain ⟨h1, h2, h3⟩ := hp
+            simp only at h1 h2 h3
+            rw [h1, h2, h3]
+          rw [this]; exact hfst.symm
+        · simp only [if_true]; exact hi
+
+theorem inv_init (s : Site) (g e : Option α) : CacheOK (NBP.init s g e) := by
+  intro c v hc; simp [NBP.init] at hc
+
+theorem fresh_gbk_site (p : NBP α) (s : Site) : fresh ({ p with site := s } : NBP α) .gbk = fresh p .gbk := by
+  rw [fresh_gbk, fresh_gbk]; rfl
+
+theorem set_inv (p : NBP α) (op : Op α) (h : CacheOK p) : CacheOK (p.set op) := by
+  have key : ∀ (st : Setter) (q : NBP α),
+      (∀ c, needs st c = false → ∀ v, p.cache c = some v → fresh q c = .ok v) →
+      q.cache = p.cache → CacheOK (q.invalidate st) := by
+    intro st q hq hcache c v hc
+    simp only [NBP.invalidate] at hc
+    split at hc
+    · cases hc
+    · next hcl =>
+      have hn : needs st c = false := by
+        cases hnd : needs st c with
+        | false => rfl
+        | true => exact absurd (table_complete st c hnd) hcl
+      have : fresh (q.invalidate st) c = fresh q c := rfl
+      rw [this]
+      rw [hcache] at hc
+      exact hq c hn v hc
+  cases op with
+  | setGamma v => exact key .gamma _ (by intro c hn; cases c <;> simp [needs] at hn) rfl
+  | setGbE v => exact key .gbEnergy _ (by intro c hn; cases c <;> simp [needs] at hn) rfl
+  | setSite s =>
+    refine key .description _ ?_ rfl
+    intro c hn v hc
+    cases c <;> simp [needs] at hn
+    rw [fresh_gbk_site]; exact h _ _ hc
+  | get c => exact h
+
+theorem exec_inv (ops : List (Op α)) : ∀ p : NBP α, CacheOK p → CacheOK (p.exec ops) := by
+  induction ops with
+  | nil => intro p h; exact h
+  | cons op ops ih =>
+    intro p h
+    cases op with
+    | get c =>
+      have : p.exec (.get c :: ops) = (p.get c).2.exec ops := by
+        simp only [NBP.exec, NBP.run]
+      rw [this]; exact ih _ (get_inv p c h)
+    | setGamma v => exact ih _ (set_inv p (.setGamma v) h)
+    | setGbE v => exact ih _ (set_inv p (.setGbE v) h)
+    | setSite s => exact ih _ (set_inv p (.setSite s) h)
+
+/-- **cached factors = fresh computation after ANY sequence of `gamma`, `gbEnergy`, `description`
+assignments and reads**, starting from the constructor -/
+theorem cached_equals_fresh (s : Site) (g e : Option α) (ops : List (Op α)) (c : Cache) :
+    (((NBP.init s g e).exec ops).get c).1 = fresh ((NBP.init s g e).exec ops) c :=
+  get_fst _ c (exec_inv ops _ (inv_init s g e))
+
+/-- a factor getter that returns a value returns the regenerated FORMULA of the current site at the
+current energy ratio (in particular, with the factor theorems above: the identity holds for what the
+getters hand out) -/
+theorem getter_returns_formula (s : Site) (g e : Option α) (ops : List (Op α)) (c : Cache) (v : α)
+    (hc : c ≠ .gbk) (h : (((NBP.init s g e).exec ops).get c).1 = .ok v) :
+    ∃ k, ((NBP.init s g e).exec ops).computeGBk = .ok k
+      ∧ v = formula ((NBP.init s g e).exec ops).site c k := by
+  rw [cached_equals_fresh, fresh_factor _ c hc] at h
+  cases hk : ((NBP.init s g e).exec ops).computeGBk with
+  | error err => rw [hk] at h; simp [Except.bind] at h
+  | ok k =>
+    rw [hk] at h
+    exact ⟨k, rfl, factorFrom_ok _ c k v h⟩
+
+/-- the fresh value only depends on the current description, interfacial energy and boundary energy -/
+theorem fresh_depends_on_params (p q : NBP α) (c : Cache) (h1 : p.site = q.site) (h2 : p.gamma = q.gamma)
+    (h3 : p.gbE = q.gbE) : fresh p c = fresh q c := by
+  unfold fresh NBP.clearAll; rw [h1, h2, h3]
+
+
+/-! ### one phase of `_calcNucleationRate` on the copied slice (D-C14-stale) -/
+
+/-- **the rate is zero for non-positive driving force, in a run**: after the repair every entry of the
+slice (critical radius, barrier, impingement, nucleation rate, nucleation radius) is zero, whatever the
+previous slice held.  `hβ`: the impingement functions return 0 at radius 0 (`beta_zero`). -/
+theorem nucStep_zero_of_dG_nonpos (q : StepIn α) (prev : NucSlice α) (dG : α) (betaOf : α → α)
+    (h : dG ≤ 0) (hβ : betaOf 0 = 0) : nucStep q prev dG betaOf = NucSlice.zero := by
+  unfold nucStep
+  split
+  · rfl
+  · rw [barrier_nonpos q.isGB q.f q.gamma q.a q.b q.c q.gbE q.Rmin dG h]
+    simp [hβ]
+
+theorem nucStep_rate_zero (q : StepIn α) (prev : NucSlice α) (dG : α) (betaOf : α → α)
+    (h : dG ≤ 0) (hβ : betaOf 0 = 0) :
+    (nucStep q prev dG betaOf).rate = 0 ∧ (nucStep q prev dG betaOf).Rnuc = 0 := by
+  rw [nucStep_zero_of_dG_nonpos q prev dG betaOf h hβ]; exact ⟨rfl, rfl⟩
+
+/-- the code BEFORE the repair: a negative driving force keeps the previous slice, so the clause is false
+of it whenever the previous rate was positive (observed in the Al–Zr run 723 K → 1500 K) -/
+theorem nucStepStale_keeps_previous (q : StepIn α) (prev : NucSlice α) (dG : α) (betaOf : α → α)
+    (h : dG < 0) : nucStepStale q prev dG betaOf = prev := by
+  simp [nucStepStale, h]
+
+theorem stale_violates (q : StepIn α) (betaOf : α → α) :
+    ∃ (prev : NucSlice α) (dG : α), dG < 0 ∧ 0 < (nucStepStale q prev dG betaOf).rate :=
+  ⟨⟨1, 1, 1, 1, 1⟩, -1, by norm_num, by rw [nucStepStale_keeps_previous _ _ _ _ (by norm_num)]; exact zero_lt_one⟩
+
+/-- in the computed branch the recorded entries are the barrier's and the impingement rate -/
+theorem nucStep_computed (q : StepIn α) (prev : NucSlice α) (dG : α) (betaOf : α → α) (h : 0 ≤ dG)
+    (hb : betaOf (barrier q.isGB q.f q.gamma q.a q.b q.c q.gbE q.Rmin dG).1 ≠ 0) :
+    (nucStep q prev dG betaOf).Rcrit = (barrier q.isGB q.f q.gamma q.a q.b q.c q.gbE q.Rmin dG).1
+    ∧ (nucStep q prev dG betaOf).Gcrit = (barrier q.isGB q.f q.gamma q.a q.b q.c q.gbE q.Rmin dG).2 := by
+  have hnz : nz (betaOf (barrier q.isGB q.f q.gamma q.a q.b q.c q.gbE q.Rmin dG).1) := lt_or_gt_of_ne hb
+  simp only [nucStep, not_lt.mpr h, if_false, hnz, if_true, nucComputed]
+  trivial
+
 end field
 
 /-! ## real numbers: the transcendental atoms are Mathlib's functions -/
@@ -431,6 +808,222 @@ theorem edge_sphere_values :
   · rw [ha]; simp only [bulk_areaFactor, tpi]; ring
   · rw [hv]; simp only [bulk_volumeFactor, tpi]; ring
 
+
+theorem corner_arg : √2 / (4 / 3 * (√3 / √2)) = √3 / 2 := by
+  have h2 : √2 * √2 = 2 := Real.mul_self_sqrt (by norm_num)
+  have h3 : √3 * √3 = 3 := Real.mul_self_sqrt (by norm_num)
+  have h2p : 0 < √2 := Real.sqrt_pos.mpr (by norm_num)
+  have h3p : 0 < √3 := Real.sqrt_pos.mpr (by norm_num)
+  field_simp
+  nlinarith
+
+theorem corner_sphere_values :
+    corner_areaFactor (0 : ℝ) = 4 * π ∧ corner_volumeFactor (0 : ℝ) = 4 * π / 3
+    ∧ corner_areaFactor (0 : ℝ) = bulk_areaFactor 0 ∧ corner_volumeFactor (0 : ℝ) = bulk_volumeFactor 0 := by
+  have ha : corner_areaFactor (0 : ℝ) = 4 * π := by
+    simp only [corner_areaFactor, npow, tpi, tsqrt, tarcsin, tarccos]
+    norm_num
+    rw [corner_arg, arccos_sqrt3_half]; ring
+  have hv : corner_volumeFactor (0 : ℝ) = 4 * π / 3 := by
+    simp only [corner_volumeFactor, npow, tpi, tsqrt, tarcsin, tarccos]
+    norm_num
+    rw [corner_arg, arccos_sqrt3_half]; ring
+  refine ⟨ha, hv, ?_, ?_⟩
+  · rw [ha]; simp only [bulk_areaFactor, tpi]; ring
+  · rw [hv]; simp only [bulk_volumeFactor, tpi]; ring
+
+/-! ### Zeldovich factor, incubation factor, rate (ℝ) -/
+
+theorem zeldovich_pos (kB NA c Vm γ T R : ℝ) (hkB : 0 < kB) (hNA : 0 < NA) (hc : 0 < c) (hVm : 0 < Vm)
+    (hγ : 0 < γ) (hT : 0 < T) (hR : R ≠ 0) :
+    0 < zeldovichW kB NA c Vm γ T R
+    ∧ 0 < 3 * c / (4 * π) ∧ 0 < γ / (kB * T)
+    ∧ 4 * π ≠ 0 ∧ kB * T ≠ 0 ∧ 2 * π * NA * npow R 2 ≠ 0 := by
+  have hnz : nz R := lt_or_gt_of_ne hR
+  have hpi := Real.pi_pos
+  have e : npow R 2 = R ^ 2 := by simp only [npow]; ring
+  have h2 : 0 < R ^ 2 := by positivity
+  refine ⟨?_, by positivity, by positivity, by positivity, by positivity, by rw [e]; positivity⟩
+  simp only [zeldovichW, hnz, if_true, zeldovich, tpi, tsqrt]
+  rw [e]
+  positivity
+
+theorem zeldovich_sphere (kB NA Vm γ T R : ℝ) :
+    zeldovich kB NA (4 * π / 3) Vm γ T R = Vm * √(γ / (kB * T)) / (2 * π * NA * R ^ 2) := by
+  simp only [zeldovich, tpi, tsqrt, npow]
+  have : 3 * (4 * π / 3) / (4 * π) = 1 := by field_simp
+  rw [this, Real.sqrt_one]; ring
+
+theorem incubation_factor_range (τ t : ℝ) (hτ : 0 ≤ τ) (ht : 0 < t) :
+    0 < incubationClamped τ t ∧ incubationClamped τ t ≤ 1
+    ∧ incubationClamped τ t = Real.exp (-τ / t) := by
+  have hx : -τ / t ≤ 0 := div_nonpos_of_nonpos_of_nonneg (by linarith) ht.le
+  have h1 : Real.exp (-τ / t) ≤ 1 := Real.exp_le_one_iff.mpr hx
+  have he : incubationClamped τ t = Real.exp (-τ / t) := by
+    simp only [incubationClamped, minS, incubationFactor, texp, not_lt.mpr h1, if_false]
+  rw [he]
+  exact ⟨Real.exp_pos _, h1, rfl⟩
+
+theorem incubation_factor_mono (τ t₁ t₂ : ℝ) (hτ : 0 ≤ τ) (h1 : 0 < t₁) (h12 : t₁ ≤ t₂) :
+    incubationClamped τ t₁ ≤ incubationClamped τ t₂ := by
+  rw [(incubation_factor_range τ t₁ hτ h1).2.2, (incubation_factor_range τ t₂ hτ (lt_of_lt_of_le h1 h12)).2.2]
+  apply Real.exp_le_exp.mpr
+  rw [neg_div, neg_div, neg_le_neg_iff]
+  exact div_le_div_of_nonneg_left hτ h1 h12
+
+theorem incubation_factor_strictMono (τ t₁ t₂ : ℝ) (hτ : 0 < τ) (h1 : 0 < t₁) (h12 : t₁ < t₂) :
+    incubationClamped τ t₁ < incubationClamped τ t₂ := by
+  rw [(incubation_factor_range τ t₁ hτ.le h1).2.2, (incubation_factor_range τ t₂ hτ.le (lt_trans h1 h12)).2.2]
+  apply Real.exp_lt_exp.mpr
+  rw [neg_div, neg_div, neg_lt_neg_iff]
+  exact div_lt_div_of_pos_left hτ h1 h12
+
+/-- finite-time rate = steady-state rate × incubation factor -/
+theorem rate_eq_steady_mul_incubation (kB Z β G T τ t : ℝ) :
+    nucRateW kB Z β G T τ t = steadyRateW kB Z β G T * incubationClamped τ t := by
+  unfold nucRateW steadyRateW
+  split
+  · simp only [nucleationRate_core]; ring
+  · ring
+
+theorem steady_rate_nonneg (kB Z β G T : ℝ) (h : 0 ≤ Z * β) : 0 ≤ steadyRateW kB Z β G T := by
+  unfold steadyRateW; split
+  · simp only [nucleationRate_core, texp]
+    have := Real.exp_pos (-G / (kB * T))
+    positivity
+  · exact le_refl _
+
+theorem rate_nonneg_le_steady (kB Z β G T τ t : ℝ) (h : 0 ≤ Z * β) (hτ : 0 ≤ τ) (ht : 0 < t) :
+    0 ≤ nucRateW kB Z β G T τ t ∧ nucRateW kB Z β G T τ t ≤ steadyRateW kB Z β G T := by
+  rw [rate_eq_steady_mul_incubation]
+  obtain ⟨h0, h1, _⟩ := incubation_factor_range τ t hτ ht
+  have hs := steady_rate_nonneg kB Z β G T h
+  exact ⟨mul_nonneg hs h0.le, by nlinarith⟩
+
+theorem steady_rate_mono_of_barrier (kB Z₁ β₁ Z₂ β₂ G₁ G₂ T : ℝ) (hkB : 0 < kB) (hT : 0 < T)
+    (hZβ : Z₁ * β₁ = Z₂ * β₂) (hnn : 0 ≤ Z₁ * β₁) (hG : G₂ ≤ G₁) (hG2 : 0 < G₂) :
+    steadyRateW kB Z₁ β₁ G₁ T ≤ steadyRateW kB Z₂ β₂ G₂ T := by
+  have n1 : nz G₁ := Or.inr (lt_of_lt_of_le hG2 hG)
+  have n2 : nz G₂ := Or.inr hG2
+  simp only [steadyRateW, n1, n2, if_true, nucleationRate_core, texp, mul_one, ← hZβ]
+  apply mul_le_mul_of_nonneg_left _ hnn
+  apply Real.exp_le_exp.mpr
+  have hk : 0 < kB * T := by positivity
+  rw [neg_div, neg_div, neg_le_neg_iff]
+  exact div_le_div_of_nonneg_right hG hk.le
+
+/-- the steady-state rate as a function of the driving force alone (everything else fixed):
+barrier → Zeldovich, impingement `B·R²` (every `beta*` has this form, `beta_forms`) → rate at time ∞ -/
+noncomputable def steadyChain (gbn : Bool) (f γ a b c e Rmin kB NA Vm T B dG : ℝ) : ℝ :=
+  steadyRateW kB (zeldovichW kB NA c Vm γ T (barrier gbn f γ a b c e Rmin dG).1)
+    (B * (barrier gbn f γ a b c e Rmin dG).1 ^ 2) (barrier gbn f γ a b c e Rmin dG).2 T
+
+theorem steadyChain_nonneg (gbn : Bool) (f γ a b c e Rmin kB NA Vm T B dG : ℝ) (hkB : 0 < kB) (hNA : 0 < NA)
+    (hc : 0 < c) (hVm : 0 < Vm) (hγ : 0 < γ) (hT : 0 < T) (hB : 0 ≤ B) :
+    0 ≤ steadyChain gbn f γ a b c e Rmin kB NA Vm T B dG := by
+  apply steady_rate_nonneg
+  by_cases hR : (barrier gbn f γ a b c e Rmin dG).1 = 0
+  · rw [hR]; simp
+  · exact mul_nonneg (zeldovich_pos kB NA c Vm γ T _ hkB hNA hc hVm hγ hT hR).1.le (by positivity)
+
+/-- **steady-state rate does not decrease with driving force** (bulk / dislocation sites), for ALL real
+driving forces including the non-positive ones -/
+theorem steadyChain_mono_bulk (f γ a b c e Rmin kB NA Vm T B dG₁ dG₂ : ℝ) (hkB : 0 < kB) (hNA : 0 < NA)
+    (hc : 0 < c) (hVm : 0 < Vm) (hγ : 0 < γ) (hT : 0 < T) (hB : 0 ≤ B) (hf : 0 ≤ f) (hR : 0 < Rmin)
+    (h12 : dG₁ ≤ dG₂) :
+    steadyChain false f γ a b c e Rmin kB NA Vm T B dG₁ ≤ steadyChain false f γ a b c e Rmin kB NA Vm T B dG₂ := by
+  by_cases h1 : 0 < dG₁
+  · have h2 : 0 < dG₂ := lt_of_lt_of_le h1 h12
+    have hR1 : (barrier false f γ a b c e Rmin dG₁).1 ≠ 0 :=
+      (lt_of_lt_of_le hR (barrier_Rcrit_ge_Rmin false f γ a b c e Rmin dG₁ h1)).ne'
+    have hR2 : (barrier false f γ a b c e Rmin dG₂).1 ≠ 0 :=
+      (lt_of_lt_of_le hR (barrier_Rcrit_ge_Rmin false f γ a b c e Rmin dG₂ h2)).ne'
+    unfold steadyChain
+    apply steady_rate_mono_of_barrier kB _ _ _ _ _ _ T hkB hT
+    · exact Zbeta_independent_of_R kB NA c Vm γ T B _ _ hR1 hR2 hNA.ne' Real.pi_pos.ne'
+    · exact mul_nonneg (zeldovich_pos kB NA c Vm γ T _ hkB hNA hc hVm hγ hT hR1).1.le (by positivity)
+    · exact barrier_bulk_Gcrit_antitone f γ a b c e Rmin dG₁ dG₂ Real.pi_pos hγ.le hf hR.le h1 h12
+    · exact barrier_bulk_Gcrit_pos f γ a b c e Rmin dG₂ Real.pi_pos hγ hR h2
+  · have : steadyChain false f γ a b c e Rmin kB NA Vm T B dG₁ = 0 := by
+      unfold steadyChain
+      rw [barrier_nonpos false f γ a b c e Rmin dG₁ (not_lt.mp h1)]
+      simp [steadyRateW]
+    rw [this]
+    exact steadyChain_nonneg false f γ a b c e Rmin kB NA Vm T B dG₂ hkB hNA hc hVm hγ hT hB
+
+/-- the same for grain-boundary site types (γ_gb = 2kγ, factors satisfying the identity) while the
+larger driving force stays below `3γ/Rmin` (beyond it the code's barrier is ≤ 0, see the finding) -/
+theorem steadyChain_mono_gb_partial (f γ a b c k Rmin kB NA Vm T B dG₁ dG₂ : ℝ) (hid : a - 2 * k * b = 3 * c)
+    (hkB : 0 < kB) (hNA : 0 < NA)
+    (hc : 0 < c) (hVm : 0 < Vm) (hγ : 0 < γ) (hT : 0 < T) (hB : 0 ≤ B) (hR : 0 < Rmin)
+    (h12 : dG₁ ≤ dG₂) (hlim : dG₂ * Rmin < 3 * γ) :
+    steadyChain true f γ a b c (2 * k * γ) Rmin kB NA Vm T B dG₁
+      ≤ steadyChain true f γ a b c (2 * k * γ) Rmin kB NA Vm T B dG₂ := by
+  by_cases h1 : 0 < dG₁
+  · have h2 : 0 < dG₂ := lt_of_lt_of_le h1 h12
+    have hR1 : (barrier true f γ a b c (2 * k * γ) Rmin dG₁).1 ≠ 0 :=
+      (lt_of_lt_of_le hR (barrier_Rcrit_ge_Rmin true f γ a b c _ Rmin dG₁ h1)).ne'
+    have hR2p : 0 < (barrier true f γ a b c (2 * k * γ) Rmin dG₂).1 :=
+      lt_of_lt_of_le hR (barrier_Rcrit_ge_Rmin true f γ a b c _ Rmin dG₂ h2)
+    unfold steadyChain
+    apply steady_rate_mono_of_barrier kB _ _ _ _ _ _ T hkB hT
+    · exact Zbeta_independent_of_R kB NA c Vm γ T B _ _ hR1 hR2p.ne' hNA.ne' Real.pi_pos.ne'
+    · exact mul_nonneg (zeldovich_pos kB NA c Vm γ T _ hkB hNA hc hVm hγ hT hR1).1.le (by positivity)
+    · exact barrier_gb_Gcrit_antitone f γ a b c k Rmin dG₁ dG₂ hid hc hγ.le hR.le h1 h12
+    · -- the barrier at dG₂ is positive
+      have hform : (barrier true f γ a b c (2 * k * γ) Rmin dG₂).2
+          = c * ((barrier true f γ a b c (2 * k * γ) Rmin dG₂).1 ^ 2
+              * (3 * γ - dG₂ * (barrier true f γ a b c (2 * k * γ) Rmin dG₂).1)) := by
+        simp only [barrier, h2, if_true]
+        exact nbp_Gcrit_form a b c γ k dG₂ _ hid
+      have hRval : (barrier true f γ a b c (2 * k * γ) Rmin dG₂).1 = max (2 * γ / dG₂) Rmin := by
+        simp only [barrier, h2, if_true]
+        rw [nbp_Rcrit_sphere a b c γ k dG₂ hid hc.ne' h2.ne', maxS_eq_max]
+      rw [hform]
+      apply mul_pos hc (mul_pos (pow_pos hR2p 2) _)
+      rw [hRval]
+      rcases le_total (2 * γ / dG₂) Rmin with h | h
+      · rw [max_eq_right h]; linarith
+      · rw [max_eq_left h]
+        have : dG₂ * (2 * γ / dG₂) = 2 * γ := by field_simp
+        rw [this]; linarith
+  · have : steadyChain true f γ a b c (2 * k * γ) Rmin kB NA Vm T B dG₁ = 0 := by
+      unfold steadyChain
+      rw [barrier_nonpos true f γ a b c _ Rmin dG₁ (not_lt.mp h1)]
+      simp [steadyRateW]
+    rw [this]
+    exact steadyChain_nonneg true f γ a b c _ Rmin kB NA Vm T B dG₂ hkB hNA hc hVm hγ hT hB
+
+/-- the excluded region is real: beyond `dG·Rmin = 3γ` the code's grain-boundary barrier is negative
+(a = 3, b = 0, c = 1, k = 0, γ = 1, Rmin = 2, dG = 2: Rcrit = 2, Gcrit = −4) -/
+theorem barrier_gb_Gcrit_negative_witness :
+    (barrier true (1:ℝ) 1 3 0 1 (2 * 0 * 1) 2 2).1 = 2 ∧ (barrier true (1:ℝ) 1 3 0 1 (2 * 0 * 1) 2 2).2 = -4 := by
+  simp only [barrier, nbp_Rcrit, nbp_Gcrit, maxS, npow]
+  norm_num
+
 end real
+
+
+/-! ### non-vacuity: the hypothesis sets are satisfiable -/
+section nonvacuity
+open Real
+attribute [local instance] realTrans
+
+-- identity hypothesis + positive volume factor + γ_gb = 2kγ: the boundary factors at k = 1/2
+example : gb_areaFactor (1/2 : ℝ) - 2 * (1/2) * gb_gbRemoval (1/2) = 3 * gb_volumeFactor (1/2)
+    ∧ 0 < gb_volumeFactor (1/2 : ℝ) :=
+  ⟨identity_boundary _, gb_volume_pos _ Real.pi_pos (by norm_num) (by norm_num)⟩
+-- dG·Rmin ≤ 3γ with everything positive
+example : (0:ℝ) < 1e8 ∧ (1e8 : ℝ) * 3e-10 ≤ 3 * 0.1 := by norm_num
+-- Zeldovich / β / τ hypotheses
+example : (0:ℝ) < 1.38e-23 ∧ (0:ℝ) < 6.022e23 ∧ (0:ℝ) < 700 ∧ (3e-9 : ℝ) ≠ 0 := by norm_num
+example : (0:ℝ) < 1e-3 ∧ (1e-3 : ℝ) < 1 ∧ (0.25 : ℝ) ≠ 1e-3 := by norm_num
+-- the state machine really runs: grain boundary, γ = 3/10, γ_gb = 3/10 → GBk = 1/2
+example : ((NBP.init (α := ℝ) .gb (some (3/10)) (some (3/10))).computeGBk) = Except.ok (1/2) := by
+  simp only [NBP.computeGBk, NBP.init, gbRatio]; norm_num
+-- populations: one phase, one class, dominated
+example : BinsLE [((1:ℚ), (2:ℚ))] [((3:ℚ), (2:ℚ))] := by
+  refine List.Forall₂.cons ⟨rfl, by norm_num, by norm_num⟩ List.Forall₂.nil
+end nonvacuity
 
 end KawinV.Props.C14
